@@ -299,6 +299,53 @@ pub fn run_pools(ctx: &mut Ctx) {
 /// `!=` is the negation of `=` (and "!=" of "=") on every pair, also where the documentation
 /// leaves the value of `=` open (objects that differ in member order, integers beyond 2^53
 /// against floats): a metamorphic relation that needs no expected value.
+#[derive(Clone, Debug, Serialize, Deserialize)]
+pub struct CaseNeg {
+    pub a: String,
+    pub b: String,
+    /// the number-as-string pair "=" / "!="
+    pub nas: bool,
+}
+
+pub struct C04Negation;
+impl Check for C04Negation {
+    type Case = CaseNeg;
+    fn name(&self) -> &'static str {
+        "C04.negation"
+    }
+    fn cases(&self, _t: Tier) -> u64 {
+        0
+    }
+    fn strategy(&self, _t: Tier) -> BoxedStrategy<CaseNeg> {
+        Just(CaseNeg { a: "1".into(), b: "1".into(), nas: false }).boxed()
+    }
+    fn check(&self, c: &CaseNeg) -> CaseResult {
+        let (a, b) = (&c.a, &c.b);
+        let (eqf, nef) = if c.nas { ("\"=\"", "\"!=\"") } else { ("=", "!=") };
+        let args = vec![format!("--select=({} {} {}) = e", eqf, a, b), format!("--select=({} {} {}) = n", nef, a, b), format!("--select=({} {} {}) = r", eqf, b, a)];
+        let o = run(&args, b"null");
+        if !o.res.is_ok() {
+            return CaseResult::Fail(format!("jawk failed: {} (args {:?})", o.res.short(), args));
+        }
+        let row = match parse_one(o.stdout.strip_suffix(b"\n").unwrap_or(&o.stdout)) {
+            Ok(r) => r,
+            Err(e) => return CaseResult::Fail(format!("unreadable output {}: {}", esc_trunc(&o.stdout, 200), e)),
+        };
+        let (e, ne, r) = (row.get("e").cloned(), row.get("n").cloned(), row.get("r").cloned());
+        match (&e, &ne) {
+            (Some(RVal::Bool(x)), Some(RVal::Bool(y))) if x != y => {
+                if matches!(&r, Some(RVal::Bool(z)) if z == x) {
+                    CaseResult::Pass(Info::new(a != b).class_if(*x, "equal").class_if(!*x, "different"))
+                } else {
+                    CaseResult::Fail(format!("({} a b) = {:?} but ({} b a) = {:?} for a = {} b = {}", eqf, e, eqf, r, a, b))
+                }
+            }
+            (None, None) => CaseResult::Pass(Info::new(false).class("both_nothing")),
+            _ => CaseResult::Fail(format!("({} a b) = {:?} but ({} a b) = {:?}: not each other's negation, for a = {} b = {}", eqf, e, nef, ne, a, b)),
+        }
+    }
+}
+
 pub fn run_negation(ctx: &mut Ctx) {
     use crate::pools::*;
     let mut vals = any_wide();
@@ -313,31 +360,14 @@ pub fn run_negation(ctx: &mut Ctx) {
     let total = n * n + m * m;
     let space = format!("all {}^2 pairs of the value pool for = / != and all {}^2 pairs of the number-as-string pool for \"=\" / \"!=\"", n, m);
     run_enum(ctx, "C04.negation", total, &space, |idx| {
-        let (a, b, eqf, nef) = if idx < n * n { (&vals[(idx / n) as usize], &vals[(idx % n) as usize], "=", "!=") } else { let j = idx - n * n; (&nas[(j / m) as usize], &nas[(j % m) as usize], "\"=\"", "\"!=\"") };
-        let args = vec![format!("--select=({} {} {}) = e", eqf, a, b), format!("--select=({} {} {}) = n", nef, a, b), format!("--select=({} {} {}) = r", eqf, b, a)];
-        let o = run(&args, b"null");
-        let case = json!({"a": a, "b": b, "args": args});
-        let mk = move || case.clone();
-        if !o.res.is_ok() {
-            return (Box::new(mk), CaseResult::Fail(format!("jawk failed: {} (args {:?})", o.res.short(), args)));
-        }
-        let row = match parse_one(o.stdout.strip_suffix(b"\n").unwrap_or(&o.stdout)) {
-            Ok(r) => r,
-            Err(e) => return (Box::new(mk), CaseResult::Fail(format!("unreadable output {}: {}", esc_trunc(&o.stdout, 200), e))),
+        let c = if idx < n * n {
+            CaseNeg { a: vals[(idx / n) as usize].clone(), b: vals[(idx % n) as usize].clone(), nas: false }
+        } else {
+            let j = idx - n * n;
+            CaseNeg { a: nas[(j / m) as usize].clone(), b: nas[(j % m) as usize].clone(), nas: true }
         };
-        let (e, ne, r) = (row.get("e").cloned(), row.get("n").cloned(), row.get("r").cloned());
-        let res = match (&e, &ne) {
-            (Some(RVal::Bool(x)), Some(RVal::Bool(y))) if x != y => {
-                if matches!(&r, Some(RVal::Bool(z)) if z == x) {
-                    CaseResult::Pass(Info::new(a != b).class_if(*x, "equal").class_if(!*x, "different"))
-                } else {
-                    CaseResult::Fail(format!("({} a b) = {:?} but ({} b a) = {:?} for a = {} b = {}", eqf, e, eqf, r, a, b))
-                }
-            }
-            (None, None) => CaseResult::Pass(Info::new(false).class("both_nothing")),
-            _ => CaseResult::Fail(format!("({} a b) = {:?} but ({} a b) = {:?}: not each other's negation, for a = {} b = {}", eqf, e, nef, ne, a, b)),
-        };
-        (Box::new(mk), res)
+        let res = C04Negation.check(&c);
+        (Box::new(move || serde_json::to_value(&c).unwrap()), res)
     });
 }
 
@@ -351,5 +381,5 @@ pub fn run_all(ctx: &mut Ctx) {
 }
 
 pub fn checks() -> Vec<Box<dyn DynCheck>> {
-    vec![Box::new(C04Eval), Box::new(C04Pools), Box::new(crate::p07::C07NasSort)]
+    vec![Box::new(C04Eval), Box::new(C04Pools), Box::new(C04Negation), Box::new(crate::p07::C07NasSort)]
 }
